@@ -1,5 +1,6 @@
 //! Main server implementation
 
+use crate::storage::commands::RedisInt;
 use std::collections::HashMap;
 use std::sync::atomic::{AtomicU64, AtomicUsize, Ordering};
 use std::sync::{Arc, Mutex};
@@ -1339,7 +1340,7 @@ impl Server {
                 
                 let milliseconds = match &parts[1] {
                     RespFrame::BulkString(Some(bytes)) => {
-                        match String::from_utf8_lossy(bytes).parse::<u64>() {
+                        match String::from_utf8_lossy(bytes).parse_redis::<u64>() {
                             Ok(ms) => ms,
                             Err(_) => return Ok(RespFrame::error("ERR value is not an integer or out of range")),
                         }
@@ -1381,7 +1382,7 @@ impl Server {
                     
                     match param_name.as_str() {
                         "slowlog-log-slower-than" => {
-                            if let Ok(value) = param_value.parse::<i64>() {
+                            if let Ok(value) = param_value.parse_redis::<i64>() {
                                 self.slowlog.set_threshold_micros(value);
                                 return Ok(RespFrame::ok());
                             } else {
@@ -1389,7 +1390,7 @@ impl Server {
                             }
                         },
                         "slowlog-max-len" => {
-                            if let Ok(value) = param_value.parse::<u64>() {
+                            if let Ok(value) = param_value.parse_redis::<u64>() {
                                 self.slowlog.set_max_len(value);
                                 return Ok(RespFrame::ok());
                             } else {
@@ -2247,7 +2248,7 @@ impl Server {
         // Extract start
         let start = match &parts[2] {
             RespFrame::BulkString(Some(bytes)) => {
-                match String::from_utf8_lossy(bytes).parse::<isize>() {
+                match String::from_utf8_lossy(bytes).parse_redis::<isize>() {
                     Ok(n) => n,
                     Err(_) => return Ok(RespFrame::error("ERR value is not an integer or out of range")),
                 }
@@ -2258,7 +2259,7 @@ impl Server {
         // Extract stop
         let stop = match &parts[3] {
             RespFrame::BulkString(Some(bytes)) => {
-                match String::from_utf8_lossy(bytes).parse::<isize>() {
+                match String::from_utf8_lossy(bytes).parse_redis::<isize>() {
                     Ok(n) => n,
                     Err(_) => return Ok(RespFrame::error("ERR value is not an integer or out of range")),
                 }
@@ -2311,7 +2312,7 @@ impl Server {
         // Extract start
         let start = match &parts[2] {
             RespFrame::BulkString(Some(bytes)) => {
-                match String::from_utf8_lossy(bytes).parse::<isize>() {
+                match String::from_utf8_lossy(bytes).parse_redis::<isize>() {
                     Ok(n) => n,
                     Err(_) => return Ok(RespFrame::error("ERR value is not an integer or out of range")),
                 }
@@ -2322,7 +2323,7 @@ impl Server {
         // Extract stop
         let stop = match &parts[3] {
             RespFrame::BulkString(Some(bytes)) => {
-                match String::from_utf8_lossy(bytes).parse::<isize>() {
+                match String::from_utf8_lossy(bytes).parse_redis::<isize>() {
                     Ok(n) => n,
                     Err(_) => return Ok(RespFrame::error("ERR value is not an integer or out of range")),
                 }
@@ -2581,7 +2582,7 @@ impl Server {
         let count = if parts.len() == 3 {
             match &parts[2] {
                 RespFrame::BulkString(Some(bytes)) => {
-                    match String::from_utf8_lossy(bytes).parse::<usize>() {
+                    match String::from_utf8_lossy(bytes).parse_redis::<usize>() {
                         Ok(n) => n,
                         Err(_) => return Ok(RespFrame::error("ERR value is not an integer or out of range")),
                     }
@@ -2632,7 +2633,7 @@ impl Server {
         let count = if parts.len() == 3 {
             match &parts[2] {
                 RespFrame::BulkString(Some(bytes)) => {
-                    match String::from_utf8_lossy(bytes).parse::<usize>() {
+                    match String::from_utf8_lossy(bytes).parse_redis::<usize>() {
                         Ok(n) => n,
                         Err(_) => return Ok(RespFrame::error("ERR value is not an integer or out of range")),
                     }
@@ -2908,7 +2909,7 @@ impl Server {
         
         let increment = match &parts[2] {
             RespFrame::BulkString(Some(bytes)) => {
-                match String::from_utf8_lossy(bytes).parse::<i64>() {
+                match String::from_utf8_lossy(bytes).parse_redis::<i64>() {
                     Ok(n) => n,
                     Err(_) => return Ok(RespFrame::error("ERR value is not an integer or out of range")),
                 }
@@ -2986,7 +2987,7 @@ impl Server {
         
         let seconds = match &parts[2] {
             RespFrame::BulkString(Some(bytes)) => {
-                match String::from_utf8_lossy(bytes).parse::<i64>() {
+                match String::from_utf8_lossy(bytes).parse_redis::<i64>() {
                     Ok(n) => n,
                     Err(_) => return Ok(RespFrame::error("ERR value is not an integer or out of range")),
                 }
@@ -3057,7 +3058,7 @@ impl Server {
         
         let db_index = match &parts[1] {
             RespFrame::BulkString(Some(bytes)) => {
-                match String::from_utf8_lossy(bytes).parse::<usize>() {
+                match String::from_utf8_lossy(bytes).parse_redis::<usize>() {
                     Ok(n) => {
                         if n >= self.storage.database_count() {
                             return Ok(RespFrame::error("ERR DB index is out of range"));
@@ -3215,7 +3216,7 @@ impl Server {
         
         let decrement = match &parts[2] {
             RespFrame::BulkString(Some(bytes)) => {
-                match String::from_utf8_lossy(bytes).parse::<i64>() {
+                match String::from_utf8_lossy(bytes).parse_redis::<i64>() {
                     Ok(n) => n,
                     Err(_) => return Ok(RespFrame::error("ERR value is not an integer or out of range")),
                 }
